@@ -148,7 +148,7 @@ CHECKS = {
     },
     "C13": {
         "level": "model_checking",
-        "technique": "explicit-state bounded model checking of the real Manifest: every edit sequence up to a depth over a hostile string alphabet x rollover ratios, reopen compared with a set/map model; every truncation length of MANIFEST",
+        "technique": "explicit-state bounded model checking of the real Manifest: every edit sequence up to a depth over a hostile string alphabet x rollover ratios, reopen compared with a set/map model; every truncation length of MANIFEST; exhaustive crash points (every system call of the last operation, both persistence models, the interrupted write torn at every byte) under a syscall journal",
         "design_ref": "DESIGN.md 4 (C13)",
         "jobs": {
             "quick": [{"ws": "harness", "bin": "seq_mani", "args": [], "timeout": 1800},
@@ -157,7 +157,7 @@ CHECKS = {
                          {"ws": "harness", "bin": "crash_mani", "args": ["--depth", 5], "timeout": 7200}],
         },
         "text": "Every sequence of edits (add, rm, info, combined, empty), rollovers and reopens up to depth 2 over a 163-symbol alphabet of hostile strings and keys and depth 3 over a 33-symbol core alphabet, at rollover ratios 1, 2 and 1000: in-memory state, state after reopen, Manifest::verify, and fragment chaining (each fragment begins with the roll-up of the complete state) must match a BTreeSet/BTreeMap model; newline must be refused; a second open of a locked manifest must fail, also from another process. Every truncation length of MANIFEST for 6 curated and all core histories <= 2: reopen yields a prefix state or an explicit error, never a partial edit, never a panic.",
-        "note": "crash_mani: every history <= 4 (thorough 5) over a 9-symbol alphabet x ratios {1, 2, 1000} under the syscall journal, every crash point of the last operation (apply, rollover, open-time rollover) in both persistence models: reopen yields the state before or after the in-flight edit or an explicit error, and Manifest::verify reports nothing. A layered alphabet replaces the infeasible full-alphabet depth 5 in seq_mani. Two openers, one lock: a second process calls Manifest::open and is observed blocked in fcntl(F_SETLKW) (through /proc/<pid>/syscall) after the first opener's k-th edit; the first applies m more edits and closes; the second must see all k+m edits, and so must a reopen (it optionally applies an edit of its own): every split k+m <= 4 (thorough 6) x 3 rollover ratios, which is every interleaving of the two at edit granularity because the lock serialises them. Every truncation case is continued with one more edit and a reopen (a torn tail must not leak into, or damage, what is recorded afterwards).",
+        "note": "crash_mani: every history <= 4 (thorough 5) over a 9-symbol alphabet x ratios {1, 2, 1000} under the syscall journal, every crash point of the last operation (apply, rollover, open-time rollover) in both persistence models, and with the write call the crash falls in having taken effect only in part (every byte cut of writes <= 96 bytes; first/last bytes, middle and line ends of longer ones): reopen yields the state before or after the in-flight edit or an explicit error, and Manifest::verify reports nothing. A layered alphabet replaces the infeasible full-alphabet depth 5 in seq_mani. Two openers, one lock: a second process calls Manifest::open and is observed blocked in fcntl(F_SETLKW) (through /proc/<pid>/syscall) after the first opener's k-th edit; the first applies m more edits and closes; the second must see all k+m edits, and so must a reopen (it optionally applies an edit of its own): every split k+m <= 4 (thorough 6) x 3 rollover ratios, which is every interleaving of the two at edit granularity because the lock serialises them. Every truncation case is continued with one more edit and a reopen (a torn tail must not leak into, or damage, what is recorded afterwards).",
     },
     "C15": {
         "level": "exploration",
